@@ -199,5 +199,17 @@ Definition res (o : outcome) : result := snd o.
 Definition run (s : rgb) (ops : list op) : rgb :=
   fold_left (fun s o => st (step s o)) ops s.
 
-(* the i-th channel of each recorded level *)
-Definition chan (i : nat) (lv : list (list Z)) : list Z := map (fun l => nth i l 0%Z) lv.
+(* ---------------- specification vocabulary (used by Props/C19_led.v) ---------------- *)
+
+Definition chan_ok (z : Z) : Prop := (0 <= z <= 255)%Z.
+
+(* every channel in 0..255, on exactly when some channel is non-zero *)
+Definition Inv_rgb (s : rgb) : Prop :=
+  let '(r, g, b) := color s in
+  chan_ok r /\ chan_ok g /\ chan_ok b /\
+  (lit s = true <-> (r <> 0 \/ g <> 0 \/ b <> 0)%Z).
+
+(* the list moves monotonically from [c] towards [g]: never away, never past *)
+Definition toward (c g : Z) (l : list Z) : Prop :=
+  ((c <= g)%Z -> mono_le (c :: l) /\ Forall (fun z => (z <= g)%Z) l) /\
+  ((g <= c)%Z -> mono_ge (c :: l) /\ Forall (fun z => (g <= z)%Z) l).
